@@ -1,7 +1,7 @@
 /-
   Model of the gene ↔ area bookkeeping of `antismash/common/secmet/record.py`
     Record.get_cds_features_within_location   (repaired: D4, D5, D6, D4b — see design/C08.md)
-    Record.add_cds_feature, Record._link_cds_to_parent (repaired: D25)
+    Record.add_cds_feature, Record._link_cds_to_parent (repaired: D41)
     Record.add_protocluster / add_candidate_cluster / add_subregion / add_region (CDS linking)
   and of `CDSCollection.add_cds`, `Protocluster.add_cds`, `Region.add_cds`,
   `Feature.is_contained_by / overlaps_with / __lt__` (the latter three via the shared location model).
